@@ -4,7 +4,7 @@ import copy
 from hypothesis import strategies as st
 
 from vlib import progs
-from vlib.runner import Outcome
+from vlib.runner import Inconclusive, Outcome
 from vlib.simharness import Harness, RefSim, enc_ref, enc_obs
 
 ID = "C05"
@@ -225,7 +225,86 @@ def _one_run(out, prog, strat, drive, cuts, mix, tag, log_level=None, prev=None,
     return ref
 
 
+def enumerate_cases(tier):
+    """a transient fault: the handler of one event fails the first time it is called; the user (after the pause) or
+    a later handler (continue strategies) schedules the very same event object again"""
+    cases = []
+    for strategy in (1, 2, 3):
+        for clock in ("float", "int"):
+            for how in ("same-object", "new-object"):
+                cases.append({"kind": "retry", "strategy": strategy, "clock": clock, "how": how})
+    return cases
+
+
+def _run_retry(case, out):
+    import time as _t
+    from pydsol.core.experiment import SingleReplication
+    from pydsol.core.model import DSOLModel
+    from pydsol.core.simevent import SimEvent
+    from pydsol.core.simulator import DEVSSimulatorFloat, DEVSSimulatorInt, RunState
+    flt = case["clock"] == "float"
+    T = (lambda x: float(x)) if flt else (lambda x: int(x))
+    trace = []
+    box = {}
+
+    class M(DSOLModel):
+        def construct_model(self):
+            sim_ = self.simulator
+            sim_.schedule_event_abs(T(1), self, "ok", name="A")
+            box["ev"] = sim_.schedule_event(SimEvent(T(2), self, "flaky", 5))
+            sim_.schedule_event_abs(T(2), self, "retry", 1)          # same instant, lower priority
+            sim_.schedule_event_abs(T(5), self, "ok", name="C")
+
+        def ok(self, name):
+            trace.append(name)
+
+        def flaky(self):
+            trace.append("B-call-%d" % (1 + sum(1 for x in trace if x.startswith("B-call"))))
+            if "failed" not in box:
+                box["failed"] = True
+                raise RuntimeError("transient failure")
+            trace.append("B-done")
+
+        def retry(self):
+            # the event that failed is tried again at once: the same event object, or a new one
+            trace.append("retry")
+            if case["how"] == "same-object":
+                self.simulator.schedule_event(box["ev"])
+            else:
+                self.simulator.schedule_event(SimEvent(T(2), self, "flaky", 5))
+    sim = (DEVSSimulatorFloat if flt else DEVSSimulatorInt)("c05-retry")
+    model = M(sim)
+    try:
+        sim.initialize(model, SingleReplication("r", T(0), T(0), T(10)))
+        sim.set_error_strategy(case["strategy"], 0)
+        for _ in range(3):
+            if sim.run_state == RunState.ENDED:
+                break
+            sim.start()
+            deadline = _t.monotonic() + 20.0
+            while sim.is_starting_or_running() or sim.run_state == RunState.STOPPING:
+                if _t.monotonic() > deadline:
+                    raise Inconclusive("no quiescence")
+                _t.sleep(0.0005)
+        want = ["A", "B-call-1", "retry", "B-call-2", "B-done", "C"]
+        if trace != want or sim.run_state != RunState.ENDED:
+            out.fail("retry-of-a-failed-event-strategy%d" % case["strategy"],
+                     {"how": case["how"], "clock": case["clock"], "trace": trace, "want": want,
+                      "state": sim.run_state.name})
+    finally:
+        try:
+            sim.cleanup()
+        except Exception:
+            pass
+    out.nontrivial = True
+    out.label("kind=retry", "strategy=%d" % case["strategy"])
+
+
 def run_case(case):
+    if case.get("kind") == "retry":
+        out = Outcome()
+        _run_retry(case, out)
+        return out
     out = Outcome()
     prog = copy.deepcopy(case["prog"])
     prog["faults"] = []
